@@ -723,6 +723,11 @@ class FnAsm:
         if not has_body or (sp and sp.no_body):
             segs.append((';\n', None))
             return segs
+        if sp and sp.external_body:
+            # trusted body: not verified, so it is not emitted either (keeps the unit free of its dependencies)
+            self.log.append('external_body: body replaced by unimplemented!() (TRUSTED, see contracts/TRUSTED.json)')
+            segs.append(('{ unimplemented!() }\n', None))
+            return segs
         body = s[it.body_open:it.body_close + 1]
         opts = {'loop_hints': sp.loop_hints if sp else {}, 'may_fail': sp.may_fail if sp else []}
         if sp and sp.may_fail:
